@@ -3,6 +3,7 @@ package hotline
 import (
 	"bytes"
 	"encoding/binary"
+	"fmt"
 	"io"
 	"slices"
 )
@@ -263,6 +264,9 @@ func (ffo *flattenedFileObject) Read(p []byte) (int, error) {
 	return n, nil
 }
 
+// maxInfoForkLen is the size of the largest possible information fork.
+const maxInfoForkLen = 72 + 2 + 65535 + 2 + 65535
+
 func (ffo *flattenedFileObject) ReadFrom(r io.Reader) (int64, error) {
 	var n int64
 
@@ -274,7 +278,12 @@ func (ffo *flattenedFileObject) ReadFrom(r io.Reader) (int64, error) {
 		return n, err
 	}
 
+	// The size of the information fork comes from the client and is allocated before the fork has arrived: refuse
+	// what no information fork can be (72 fixed bytes, a name and a comment with a 16 bit length each).
 	dataLen := binary.BigEndian.Uint32(ffo.FlatFileInformationForkHeader.DataSize[:])
+	if dataLen > maxInfoForkLen {
+		return n, fmt.Errorf("information fork of %d bytes", dataLen)
+	}
 	ffifBuf := make([]byte, dataLen)
 	if _, err := io.ReadFull(r, ffifBuf); err != nil {
 		return n, err
